@@ -1,6 +1,6 @@
 From Coq Require Import List Arith Bool String.
 From Wire Require Import Sets Acyclic Solve Names Front Exec Model Emit Cli CopyAst ModelThms NamesThms Bridge ProcessWF Perm PermModel EmitThms Regroup RegroupModel SolveBound SolveBoundModel.
-From Wire Require Show.
+From Wire Require Show ShowBound FrontRules.
 From Wire Require Rename.
 Import ListNotations.
 
@@ -196,6 +196,48 @@ Theorem C19_show_included_sets_terminates : forall key root,
   exists res, Show.imports_run (2 * Show.nsize root + 2) key [root] [] [] = Some res.
 Proof. exact Show.show_imports_terminates. Qed.
 Print Assumptions C19_show_included_sets_terminates.
+
+(* the grouping loop of `wire show` completes, within the model's linear bound, on every provider map whose
+   dependency graph is acyclic (it is step for step the planner's loop on a derived map: ShowBound.sim_step) *)
+Theorem C19_show_groups_terminate : forall tyorder (pm : pmap entry), NoDup (keys pm) -> verify tyorder pm = [] ->
+  exists g, Show.show_groups pm (keys pm) = Some g.
+Proof. exact ShowBound.show_groups_terminates. Qed.
+Print Assumptions C19_show_groups_terminate.
+
+(* ------------------------------------------------------------------ C12 / C11 / C13 (front end) *)
+(* wire.FieldsOf: whatever is accepted names declared, unprevented fields exactly as written, one per name in order,
+   and a pointer to the field is provided exactly when the first argument is a pointer to a pointer to the struct *)
+Theorem C12_fieldsof_accepts : forall t lits sel, FrontRules.front_fieldsof t lits = FrontRules.FROk sel ->
+  exists fs ptr, FrontRules.fields_struct t = Some (fs, ptr) /\ lits <> [] /\ List.length sel = List.length lits /\
+    Forall2 (fun l (fp : sfield * bool) => In (fst fp) fs /\ quote (sf_name (fst fp)) = l /\
+                                             is_prevented (sf_tag (fst fp)) = false /\ snd fp = ptr) lits sel.
+Proof. exact FrontRules.fieldsof_accepts. Qed.
+Print Assumptions C12_fieldsof_accepts.
+
+Theorem C12_fieldsof_pointer_iff : forall t fs ptr, FrontRules.fields_struct t = Some (fs, ptr) ->
+  (ptr = true <-> exists e e2, t = FrontRules.GPtr e /\ FrontRules.underlying e = FrontRules.UPtr e2 /\
+                               FrontRules.underlying e2 = FrontRules.UStruct fs).
+Proof. exact FrontRules.fieldsof_pointer_iff. Qed.
+Print Assumptions C12_fieldsof_pointer_iff.
+
+Theorem C12_struct_needs_named_struct : forall t lits pid pkg name tptr p,
+  FrontRules.front_struct t lits pid pkg name tptr = FrontRules.SROk p ->
+  exists n u fs, t = FrontRules.GPtr (FrontRules.GNamed n false u) /\ u = FrontRules.UStruct fs /\
+                 struct_provider (mkSProv pid pkg name n tptr fs lits) = inl p.
+Proof. exact FrontRules.struct_accepts. Qed.
+Print Assumptions C12_struct_needs_named_struct.
+
+Theorem C11_bind_accepts : forall it ct identical implements,
+  FrontRules.front_bind it ct identical implements = FrontRules.BROk <->
+  (exists i c, it = FrontRules.GPtr i /\ FrontRules.is_iface i = true /\ ct = FrontRules.GPtr c /\ identical = false /\ implements = true).
+Proof. exact FrontRules.bind_accepts. Qed.
+Print Assumptions C11_bind_accepts.
+
+Theorem C13_ifacevalue_accepts : forall it vt implements,
+  FrontRules.front_ifacevalue it vt implements = FrontRules.IVOk <->
+  (exists i, it = FrontRules.GPtr i /\ FrontRules.is_iface i = true /\ vt <> FrontRules.GUntypedNil /\ implements = true).
+Proof. exact FrontRules.ifacevalue_accepts. Qed.
+Print Assumptions C13_ifacevalue_accepts.
 
 (* ------------------------------------------------------------------ C09 *)
 Theorem C09_results : forall rs c e, func_output rs = FoOk c e <-> legal_results rs c e.
